@@ -27,6 +27,25 @@ fn mk_pages(ty: usize, rng: &mut Rng, n: usize) -> Vec<Page<'static>> {
         .map(|_| {
             let id = if rng.chance(1, 4) { 0 } else { rng.u8() }; // duplicates on purpose
             let mut p = Page::new(PageId(id), w, h);
+            // a quarter of the pages are not the library's own making: arbitrary header bytes 1..3, unused bits and padding
+            // (what a capture from a real controller looks like), all FF (a last chunk of nothing but FF), all 00
+            match rng.below(16) {
+                0 | 1 => {
+                    let n = p.as_bytes().len();
+                    return Page::from_bytes(w, h, rng.bytes(n)).expect("padded length");
+                }
+                2 => {
+                    let n = p.as_bytes().len();
+                    let mut b = vec![0xFFu8; n];
+                    b[0] = id;
+                    return Page::from_bytes(w, h, b).expect("padded length");
+                }
+                3 => {
+                    let n = p.as_bytes().len();
+                    return Page::from_bytes(w, h, vec![0u8; n]).expect("padded length");
+                }
+                _ => {}
+            }
             match rng.below(4) {
                 0 => {}
                 1 => p.set_all_pixels(true),
@@ -39,7 +58,18 @@ fn mk_pages(ty: usize, rng: &mut Rng, n: usize) -> Vec<Page<'static>> {
             }
             p
         })
-        .collect()
+        .collect::<Vec<_>>()
+        .into_iter()
+        .fold(vec![], |mut v: Vec<Page<'static>>, p| {
+            // now and then the same page twice in a row (a blink sequence, a repeated frame of an animation)
+            if !v.is_empty() && rng.chance(1, 6) {
+                let prev = v.last().unwrap().clone();
+                v.push(prev);
+            } else {
+                v.push(p);
+            }
+            v
+        })
 }
 
 fn pages_equal(have: &[Page<'_>], want: &[Page<'static>]) -> Result<(), String> {
